@@ -146,6 +146,18 @@ CHECKS = {
         'generated (not exhaustive) configuration space.',
         'A crash = abandoning the instance; history is the only carrier; generation counters / RNG state of selectors not compared; dedup memory read from Deduping._cache; rewards strictly positive.',
         'DESIGN.md section 3 C15'),
+    'C19': (
+        'grammar-based program generation + exhaustive construct x host x 256-permission matrix; independent AST classifier and differential against plain exec/eval',
+        'Every gated construct (17 forms incl. augmented/annotated/walrus assignment, match, try/except*, lambda, both import forms) x '
+        '28 syntactic host positions (bodies of every compound statement, default values, decorators, comprehension element and '
+        'condition, f-string field and format spec, lambda body, match guard, class base, annotation, ...) x all 256 permission subsets '
+        'is enumerated in every run; larger programs are generated from a statement/expression grammar with optional enclosing '
+        'permission scopes and explicit permission arguments. An independent node-class -> permission table decides what must be '
+        'refused (CodeError before anything runs: a sentinel attribute read at the top of every program must not happen); when all '
+        'required permissions are granted, stdout, side effects, intermediate variables, the result, and for raising programs the '
+        'cause class and line are compared with plain exec/eval of the same text. Exploration with an exhaustive finite sub-domain.',
+        'Ambiguous nodes (IfExp, comprehensions, with, bare decorators) never required to be refused; in-process evaluate only.',
+        'DESIGN.md section 3 C19'),
 }
 
 NOT_BUILT = 'check not built yet in this round (planned; see DESIGN.md section 3)'
